@@ -195,6 +195,8 @@ def plain(x, depth=0):
                 except Exception:
                     return [plain(v, depth + 1) for v in x.raw().tolist()]
             return [plain(r, depth + 1) for r in x]
+        if type(x).__name__ == "StringArray" and hasattr(x, "raw"):
+            return plain(np.asarray(x.raw()).tolist(), depth + 1)
         if isinstance(x, BNPDataClass):
             import dataclasses
             return {f.name: plain(getattr(x, f.name), depth + 1) for f in dataclasses.fields(x)}
